@@ -27,7 +27,11 @@ RULE = ("tables: every composition table with 1 chromosome of length <=7 and 2 c
         "corpus tables alternate dense and very sparse pixel sets (chromosomes without pixels). Region STRINGS in every accepted spelling: plain, thousands "
         "separators, unit suffixes k/kb/M/Mb/G/Gb in any case with 0-6 decimals (exact decimal spelling computed by the harness), open end, whole chromosome, "
         "on every bin edge of fixed-width tables (10 x 260, 100 x 120, 1000 x 120) and of variable-width sweep tables whose edges are drawn from all 2-/3-decimal "
-        "mantissas x units (half from the mantissas where binary float scaling is inexact); string regions also go through `cooler dump -r/-r2`. One evaluation = one API call compared with the model. "
+        "mantissas x units (half from the mantissas where binary float scaling is inexact); string regions also go through `cooler dump -r/-r2`. "
+        "HISTORIES in one process: families of coolers with the same bin size but different chromosome tables as groups of one file (alternating / blockwise / reversed), "
+        "and one collection path re-created along fixed(b1) -> variable -> fixed(b2) -> variable (all four transitions, also same-kind) with every way the API offers "
+        "(create_cooler mode w, mode a at the root, mode a at a nested group, `cooler load --append`), every entry plus Cooler.binsize / info bin-size / bin-type "
+        "checked against the table stored NOW. One evaluation = one API call compared with the model. "
         "non-trivial = valid region that is not the whole chromosome, on a chromosome with >=2 bins or a table with >=2 chromosomes; "
         "distinct by (table, region, spelling, api)")
 TRUSTED = ["h5py dataset slicing and pandas iloc are observed through the public fetch API, not modelled separately",
@@ -327,7 +331,7 @@ def dense_full(n, px):
 
 # ------------------------------------------------------------------ implementation side
 class Table:
-    def __init__(self, tmpdir, k, widths, px, uri=None, mode="w"):
+    def __init__(self, tmpdir, k, widths, px, uri=None, mode="w", via_cli=False):
         import cooler
         from cooler.util import GenomeSegmentation
         self.widths = widths
@@ -341,7 +345,23 @@ class Table:
         self.df = table_from_blocks(self.blocks)
         self.df["tag"] = np.arange(len(self.df), dtype=np.int64) * 7 + 1       # an extra bin column must come back with its own rows
         pdf = pd.DataFrame({"bin1_id": [p[0] for p in px], "bin2_id": [p[1] for p in px], "count": [p[2] for p in px]})
-        cooler.create_cooler(self.uri, self.df, pdf, mode=mode)
+        self.has_tag = not via_cli
+        if via_cli:        # `cooler load -f coo --append BINS.bed PIXELS.txt URI`: re-creation through the command line
+            from click.testing import CliRunner
+            from cooler.cli import cli
+            bed, coo = os.path.join(d, f"cli{k}.bed"), os.path.join(d, f"cli{k}.coo")
+            with open(bed, "w") as f:
+                for blk in self.blocks:
+                    for (c, s, e) in blk:
+                        f.write(f"{self.names[c]}\t{s}\t{e}\n")
+            with open(coo, "w") as f:
+                for (a, b_, v) in px:
+                    f.write(f"{a}\t{b_}\t{v}\n")
+            res = CliRunner().invoke(cli, ["load", "-f", "coo"] + (["--append"] if mode == "a" else []) + [bed, coo, self.uri])
+            if res.exit_code != 0:
+                raise RuntimeError(f"cooler load failed: {res.exception!r}")
+        else:
+            cooler.create_cooler(self.uri, self.df, pdf, mode=mode)
         self.clr = cooler.Cooler(self.uri)
         self.gs = GenomeSegmentation(self.clr.chromsizes, self.df[["chrom", "start", "end"]])
         self.grouped = self.df[["chrom", "start", "end"]].groupby("chrom", observed=True)
@@ -372,7 +392,7 @@ def run_api(T, api, reg, reg2=None):
         st, v = call(lambda: T.clr.bins().fetch(r))
         if st != "ok":
             return st
-        if "tag" not in v.columns or any(int(tg) != 7 * int(i) + 1 for i, tg in zip(v.index, v["tag"])):
+        if T.has_tag and ("tag" not in v.columns or any(int(tg) != 7 * int(i) + 1 for i, tg in zip(v.index, v["tag"]))):
             return "extra bin column does not belong to the returned rows"
         return T.bins_rows(v)
     if api == "pixels":
@@ -468,6 +488,20 @@ def family_tables(rng, kind, size=3):
     return fam
 
 
+def family_mixed(rng):
+    """fixed (b1), variable, fixed (b2 != b1), variable: re-creating one path along this family walks through all of
+    fixed->variable, variable->fixed, fixed->fixed (other size), variable->variable"""
+    f1 = family_tables(rng, "fixed", 1)[0]
+    f2 = family_tables(rng, "fixed", 1)[0]
+    b1 = oracle_binsize(f1)
+    for _ in range(50):
+        if oracle_binsize(f2) not in (None, b1):
+            break
+        f2 = family_tables(rng, "fixed", 1)[0]
+    v = family_tables(rng, "variable", 2)
+    return [f1, v[0], f2, v[1]]
+
+
 def history_tables(hist):
     """the per-table plans of a history, a pure function of its description (so that a replay rebuilds the same history)"""
     import random
@@ -487,6 +521,23 @@ def history_tables(hist):
         calls += [(pair_api(k, ra, rb), ra, rb) for k, (ra, rb) in enumerate(pairs)]
         out.append((widths, pxseed, px, regs, fidx, pairs, "history:" + hist["mode"] + ":" + hist["order"], calls, dense))
     return out
+
+
+def oracle_binsize(widths):
+    """independent reading of 'fixed bin size b': every bin but the last of each chromosome has width b, no last bin is wider,
+    and at least one chromosome shows the width"""
+    inner = {w for ws in widths for w in ws[:-1]}
+    if len(inner) != 1:
+        return None
+    b = next(iter(inner))
+    return b if all(ws[-1] <= b for ws in widths) else None
+
+
+def reported_binsize(T):
+    info = T.clr.info
+    bs = T.clr.binsize
+    ib = info.get("bin-size")
+    return [None if bs is None else int(bs), None if ib in (None, "null") else int(ib), info.get("bin-type")]
 
 
 def history_worker(job):
@@ -528,12 +579,20 @@ def history_worker(job):
             Ts[0].close()
         else:
             path = os.path.join(d, f"o{k}.cool")
+            how = hist.get("rewrite", "w")          # w: whole file; a-root / a-group: create_cooler(mode="a") at the root / a nested group; cli-append
+            uri = path + "::/res/x" if how == "a-group" else path
             seq = hist["order_seq"]
             cnt = {i: seq.count(i) for i in range(nt)}
             done = {i: 0 for i in range(nt)}
+            bad = {}
             for ph, i in enumerate(seq):
-                T = Table(tmpdir, k, tabs[i][0], tabs[i][2], uri=path, mode="w")      # overwrite the same path
+                mode = "w" if (how == "w" or ph == 0) else "a"
+                T = Table(tmpdir, k, tabs[i][0], tabs[i][2], uri=uri, mode=mode, via_cli=(how == "cli-append"))
                 fixed[i] = T.clr.binsize is not None
+                exp_b = oracle_binsize(tabs[i][0])
+                got_b = reported_binsize(T)
+                if got_b != [exp_b, exp_b, "fixed" if exp_b is not None else "variable"] and i not in bad:
+                    bad[i] = f"binsize: after re-creating the collection ({how}, step {ph} of {seq}) Cooler.binsize / info bin-size / bin-type = {got_b}, the stored table has bin size {exp_b}"
                 ncalls = len(tabs[i][7])
                 lo = ncalls * done[i] // cnt[i]
                 done[i] += 1
@@ -543,6 +602,7 @@ def history_worker(job):
                     outs[i][c] = run_api(T, api, reg, reg2)
             if os.path.exists(path):
                 os.remove(path)
+            return [((bad[i] if i in bad else "ok"), fixed[i], outs[i]) for i in range(nt)]
         return [("ok", fixed[i], outs[i]) for i in range(nt)]
     except TimeoutError:
         return [("timeout", None, None)] * nt
@@ -743,6 +803,12 @@ def run(ctx):
             seq = [0, 1, 2, 0, 1] if rep == 0 else [2, 0, 1, 0, 2]
             hists.append({"mode": "overwrite", "order": "seq" + "".join(map(str, seq)), "order_seq": seq, "family": fam,
                           "hseed": rng.randrange(1 << 30), "kind": kind})
+    for rep in range(2 if thorough else 1):
+        fam = family_mixed(rng)
+        for how in ("w", "a-root", "a-group", "cli-append"):
+            seq = [0, 1, 2, 3, 0, 2, 1, 3, 1, 0] if rep == 0 else [1, 0, 3, 2, 0, 1, 3, 1, 2, 0]
+            hists.append({"mode": "overwrite", "rewrite": how, "order": how + "-seq" + "".join(map(str, seq)), "order_seq": seq, "family": fam,
+                          "hseed": rng.randrange(1 << 30), "kind": "mixed"})
     hjobs = []
     for hk, hist in enumerate(hists):
         hjobs.append((str(ctx.tmp), hk, hist))
